@@ -607,11 +607,64 @@ TableDrift(ev) ==
     [] ev.op = "group_assoc" -> AssocDrift(t)
     [] OTHER -> {}
 
+
+---------------------------------------------------------------------------
+\* C16: constructors.  from_dense groups the positions of every axis by their label,
+\* keeping their relative order (a stable sort by charge), and keeps the conserving sectors
+RankInLabel(lab, i) == Cardinality({j \in 1..(i - 1) : lab[j] = lab[i]})
+CountLabel(lab, c) == Cardinality({j \in 1..Len(lab) : lab[j] = c})
+FromDenseElems(d, labels, sym, duals, charge) ==
+  { [k |-> [a \in 1..Len(e.k) |-> <<labels[a][e.k[a] + 1], RankInLabel(labels[a], e.k[a] + 1)>>], v |-> e.v] :
+      e \in {f \in DenseNZ(d) :
+               SignedCombine(sym, [a \in 1..Len(f.k) |-> labels[a][f.k[a] + 1]], duals) = charge} }
+FromDenseEv(ev, pre) ==
+  LET d == Ins(ev, pre, 1)
+      a == ev.args
+      charge == IF Flag(a, "charge_given") THEN a.charge ELSE Zero
+      en == /\ IsDense(d) /\ d.exact /\ Len(a.labels) = Len(d.shape) /\ Len(a.duals) = Len(d.shape)
+            /\ \A i \in 1..Len(d.shape) : Len(a.labels[i]) = d.shape[i]
+            /\ (a.cls = "dynamic" => Flag(a, "sym_given"))
+  IN Judge(ev, en, LET r == Outs(ev, 1) IN
+       F(IsArray(r) /\ Valid(r), "C16.from_dense.result_valid") \cup
+       (IF IsArray(r) /\ Valid(r) /\ AllExact(r)
+        THEN F(Elem(r) = FromDenseElems(d, a.labels, a.sym, a.duals, charge), "C16.from_dense.value")
+             \cup F(r.charge = charge /\ Duals(r) = a.duals /\ r.sym = a.sym /\ r.kind = a.kind, "C16.from_dense.attributes")
+             \cup F(\A i \in 1..Rank(r) : \A c \in SeqRange(a.labels[i]) :
+                       CmHas(r.ix[i], c) /\ SizeOf(r.ix[i], c) = CountLabel(a.labels[i], c), "C16.from_dense.tables")
+        ELSE {}), "C16.from_dense")
+\* the other constructors take a template t: the result must be the same array
+ConstructEv(ev, pre) ==
+  LET t == Ins(ev, pre, 1)
+      a == ev.args
+      \* does every table charge occur in a stored sector?  (otherwise blocks alone do not describe t)
+      covered == \A i \in 1..Rank(t) : \A c \in CmChargeSet(t.ix[i]) : \E b \in 1..Len(t.blocks) : t.blocks[b].s[i] = c
+      defaulted == ~Flag(a, "charge_given")
+      \* documented defaults: identity charge; "inferred from the first sector" when blocks are given to the class itself
+      charge == IF ~defaulted THEN a.charge
+                ELSE IF ev.op = "construct" /\ t.blocks # <<>> /\ ~(Has(a, "with_blocks") /\ a.with_blocks = FALSE) THEN t.charge
+                ELSE Zero
+      en == /\ IsArray(t) /\ Valid(t)
+            /\ (a.cls = "dynamic" => Flag(a, "sym_given"))
+            /\ (ev.op = "from_blocks" => covered /\ t.blocks # <<>>)
+            /\ charge = t.charge
+            /\ (a.kind = "fermionic" /\ Parity(t.sym, t.charge) = 1 => Has(a, "oddpos"))
+      p == "C16." \o ev.op
+  IN Judge(ev, en, LET r == Outs(ev, 1) IN
+       F(IsArray(r) /\ Valid(r), p \o ".result_valid") \cup
+       (IF IsArray(r) /\ Valid(r) /\ AllExact(r) /\ AllExact(t)
+        THEN (IF Has(a, "with_blocks") /\ a.with_blocks = FALSE
+              THEN F(r.blocks = <<>> /\ Den(r).ix = Den(t).ix /\ r.charge = charge, p \o ".value")
+              ELSE WhySameDen(Den(r), Den(t), p))
+             \cup F(r.sym = a.sym /\ r.kind = a.kind /\ r.cls = a.cls, p \o ".class")
+        ELSE {}), p)
+
 ---------------------------------------------------------------------------
 OpFails(ev, pre) ==
   IF ev.op \in {"group_pairs", "group_assoc", "sectors"} THEN TableFails(ev)
   ELSE IF ev.op = "rel" THEN PseudoFails(ev, pre)
   ELSE IF ev.op = "init" \/ ev.in = <<>> THEN {}
+  ELSE IF ev.op = "from_dense" THEN FromDenseEv(ev, pre)
+  ELSE IF ev.op \in {"from_blocks", "construct", "from_fill_fn"} THEN ConstructEv(ev, pre)
   ELSE IF ev.op = "fuse" THEN FuseEv(ev, pre)
   ELSE IF ev.op = "unfuse" THEN UnfuseEv(ev, pre)
   ELSE IF ev.op = "reshape" THEN ReshapeEv(ev, pre)
